@@ -1,5 +1,5 @@
 """C02 Stored LRUs stay findable and read back byte-identical, any stem length."""
-from harness.common import plain_pool, Ref, NEVER, PL, same, match_multiset
+from harness.common import plain_pool, concrete_pool, Ref, NEVER, PL, same, match_multiset
 from harness.driver import History
 from harness import rawtrie
 from harness.C19 import open_index
@@ -11,6 +11,10 @@ REQUIRED = ["lookup:locatable", "lookup:windup", "dfs:count", "raw:bst-order", "
             "reach:absent-prefix", "reach:long-stem", "reach:op:page", "reach:op:links", "reach:op:we", "reach:op:rule"]
 OUTSIDE = ["long stems in the `sparse` levels have symbolic bytes only next to the 74-byte block boundaries and at both ends; the other bytes are a concrete position-dependent filler (fully symbolic long stems: thorough level long-full-n1)",
            "stems longer than 297 bytes", "more than 4 pool LRUs / 3 write requests", "LRUs of more than 3 stems"]
+
+
+# LRUs submitted as str: composed and decomposed accents, a compatibility character, CJK, an astral character
+STR_LRUS = [["s:http|", "h:caf\u00e9|"], ["s:http|", "h:cafe\u0301|", "p:\u212b|"], ["s:http|", "h:\u65e5\u672c|", "p:\U0001f600x|"]]
 
 
 def levels(tier):
@@ -27,6 +31,8 @@ def levels(tier):
              "backends": ["file", "memory"], "links_batch": 2},
             {"name": "mixed-n1", "pools": [[[1], [2, 1], [1, 2]], [[2], [1, 1], [2, 2]]], "absent": [2], "n": 1, "alphabet": alpha,
              "backends": ["memory"], "links_batch": 2},
+            {"name": "str-lrus", "concrete": STR_LRUS, "concrete_absent": ["s:http|", "h:cafe|"], "as_str": True, "n": 2,
+             "alphabet": ["page", "links", "we"], "backends": ["memory", "file"], "links_batch": 1},
         ]
     return [
         {"name": "short-n1", "pools": [short, short3], "absent": [1, 1], "n": 1, "alphabet": alpha, "backends": ["memory", "file"], "links_batch": 2},
@@ -72,12 +78,16 @@ def battery(E, t, ref, queries):
 
 def harness(E):
     P = E.params
-    L = P["pools"][E.choose("pool", len(P["pools"]))]
-    if P.get("L2"):
-        L = [[2 for _ in x] for x in L]
-    shape = [len(x) for x in L]
-    pool = plain_pool(E, shape, L, sparse=P.get("sparse", False))
-    absent = plain_pool(E, [len(P["absent"])], [P["absent"]], tag="x", sparse=P.get("sparse", False))[0]
+    if "concrete" in P:
+        pool = concrete_pool(E, P["concrete"])
+        absent = concrete_pool(E, [P["concrete_absent"]], tag="x")[0]
+    else:
+        L = P["pools"][E.choose("pool", len(P["pools"]))]
+        if P.get("L2"):
+            L = [[2 for _ in x] for x in L]
+        shape = [len(x) for x in L]
+        pool = plain_pool(E, shape, L, sparse=P.get("sparse", False))
+        absent = plain_pool(E, [len(P["absent"])], [P["absent"]], tag="x", sparse=P.get("sparse", False))[0]
     backend = P["backends"][E.choose("backend", len(P["backends"]))]
     t = open_index(E, backend, default_webentity_creation_rule=NEVER, webentity_creation_rules={})
     ref = Ref()
